@@ -33,7 +33,7 @@ func shape(p URLParts) string {
 		fs = append(fs, "rawpath")
 	}
 	if u.ForceQuery && u.RawQuery == "" {
-		fs = append(fs, "bareq")
+		return "bareq" // '?' with an empty query: dominates the other features (known finding)
 	}
 	if atPercent(p.Path) || atPercent(p.Query) {
 		fs = append(fs, "atpct")
@@ -135,18 +135,179 @@ func checkE2E(c *corr.Ctx, cs *E2ECase, r *e2eResult) {
 	}
 }
 
-func (g gen) e2eCase(host string, port int) *E2ECase {
+func intsCSV(xs []int) string {
+	if len(xs) == 0 {
+		return "-"
+	}
+	var sb strings.Builder
+	for i, x := range xs {
+		if i > 0 {
+			sb.WriteByte(',')
+		}
+		fmt.Fprintf(&sb, "%d", x)
+	}
+	return sb.String()
+}
+
+// traceText renders what the wire and the handlers showed in the model's trace format.
+func traceText(reqs []wireReq, events []event, step string) string {
+	var toks []string
+	if step != "" {
+		// a failed client call is followed by Close(), which may still write a TEARDOWN
+		for len(reqs) > 0 && reqs[len(reqs)-1].Method == "TEARDOWN" {
+			reqs = reqs[:len(reqs)-1]
+		}
+	}
+	for _, q := range reqs {
+		toks = append(toks, "L:"+q.Method+":"+hx(q.Target))
+	}
+	for _, e := range events {
+		switch e.Method {
+		case "describe":
+			toks = append(toks, "D:"+hx(e.Path)+":"+hx(e.Query)+":"+corr.B(e.Authed))
+		case "announce":
+			toks = append(toks, "A:"+hx(e.Path)+":"+hx(e.Query)+":"+corr.B(e.Authed))
+		case "setup":
+			toks = append(toks, "S:"+hx(e.Path)+":"+hx(e.Query)+":"+corr.B(e.Authed)+":"+intsCSV(e.Medias))
+		case "play":
+			toks = append(toks, "P:"+hx(e.Path)+":"+hx(e.Query)+":"+intsCSV(e.Medias))
+		case "record":
+			toks = append(toks, "R:"+hx(e.Path)+":"+hx(e.Query)+":"+intsCSV(e.Medias))
+		case "pause":
+			toks = append(toks, "Z:"+hx(e.Path)+":"+hx(e.Query)+":"+intsCSV(e.Medias))
+		}
+	}
+	if step == "" {
+		toks = append(toks, "ok")
+	} else {
+		step = strings.TrimSuffix(step, "2")
+		toks = append(toks, "fail:"+step)
+	}
+	return strings.Join(toks, " ")
+}
+
+func (g gen) e2eCase(valid bool) *E2ECase {
 	cs := &E2ECase{Kind: "play"}
 	if g.chance(0.5) {
 		cs.Kind = "record"
 	}
-	cs.URL = g.urlParts(true, host)
+	host := g.pick([]string{"127.0.0.1:%d", "localhost:%d", "[::1]:%d", "cam.example.com:%d", "cam.example.com", "[2001:db8::7]:%d", "192.168.1.10", "[fe80::1%%25eth0]:%d"})
+	cs.RealDial = strings.HasPrefix(host, "127.") || strings.HasPrefix(host, "localhost") || strings.HasPrefix(host, "[::1]")
+	cs.URL = g.urlParts(valid, host)
 	cs.NMedias = 1 + g.r.IntN(4)
 	cs.Order = g.r.Perm(cs.NMedias)
 	cs.Auth = cs.URL.User != "" && g.chance(0.5)
 	cs.Pause = g.chance(0.3)
-	_ = port
 	return cs
+}
+
+// effectiveAuth: the test server demands credentials only when the URL carries a non-empty user name.
+func effectiveAuth(cs *E2ECase, u *base.URL) bool {
+	return cs.Auth && u != nil && u.User != nil && u.User.Username() != ""
+}
+
+func runE2ECase(c *corr.Ctx, srv *e2eServer, cs *E2ECase, name string) {
+	r := srv.runE2E(cs)
+	c.Dist("e2e-" + cs.Kind)
+	c.Dist("e2e-shape-" + shape(cs.resolved(0)))
+	c.Dist(fmt.Sprintf("e2e-medias-%d", cs.NMedias))
+	if cs.Auth {
+		c.Dist("e2e-auth")
+	}
+	if cs.URL.User != "" {
+		c.Dist("e2e-userinfo")
+	}
+	if r.step != "" {
+		c.Dist("e2e-failed-step-" + r.step)
+	}
+	checkE2E(c, cs, r)
+	if r.step == "parse" || r.step == "start" {
+		c.CountOnly(name, false)
+		return
+	}
+	op := fmt.Sprintf("url %s %s %d %s %s %s", cs.Kind, hx(r.urlText), cs.NMedias, intsCSV(cs.Order), corr.B(effectiveAuth(cs, r.u)), corr.B(cs.Pause))
+	c.Add(corr.Case{Name: name, Ops: []string{op}, Impl: []string{traceText(r.reqs, r.events, r.step)}, Nontrivial: true})
+}
+
+var camCBs = [][]string{{"{T}/"}, {"{T}"}, {"rtsp://10.0.0.5:554/other/"}, {"rtsp://10.0.0.5:554/other"}, {"/rel/base/"}, {"/rel"}, {"rtsp://10.0.0.5/a?b=c/"}, {"rtsp://10.0.0.5/a?b=c"},
+	{"rtsp://u:p@10.0.0.5/withcreds/"}, {"{T}/", "{T}/"}, {}, {"not a url"}, {"rtsp://10.0.0.5/%zz"}, {"rtsp://[::1]:554/v6/"}, {"rtsp://10.0.0.5/a%2Fb/"}, {"rtsp://10.0.0.5/a?"}, {"rtsp://10.0.0.5"}}
+
+var camControls = []string{"trackID=0", "trackID=1", "trackID=2", "?trackID=1", "/trackID=1", "?ctype=video", "/video", "track1", "streamid=0", "video/1", "", noControl, "*",
+	"rtsp://10.0.0.9/stream/trackID=0", "rtsp://10.0.0.9:554/Streaming/Channels/101/trackID=1?transportmode=unicast", "rtsp://u:p@10.0.0.9/stream/trackID=3", "rtsp://10.0.0.9/%zz", "%zz", "a%20b", "trackID=%41", "rtsps://10.0.0.9/s/trackID=0"}
+
+func (g gen) camCase() *CamCase {
+	cs := &CamCase{}
+	cs.URL = g.urlParts(true, g.pick([]string{"127.0.0.1:%d", "cam.example.com:%d", "cam.example.com", "[::1]:%d"}))
+	if g.chance(0.7) {
+		cs.HasCB = true
+		cs.CB = append([]string{}, g.pick2(camCBs)...)
+	}
+	if g.chance(0.25) {
+		cs.HasSessCtl = true
+		cs.SessCtl = g.pick([]string{"*", "rtsp://10.0.0.7/sess/", "rtsp://10.0.0.7/sess", "rtsp://10.0.0.7/sess?x=1", "/relsess", "rtsp://10.0.0.7/%zz", ""})
+	}
+	n := 1 + g.r.IntN(3)
+	for i := 0; i < n; i++ {
+		cs.Controls = append(cs.Controls, g.pick(camControls))
+	}
+	return cs
+}
+
+func (g gen) pick2(xs [][]string) []string { return xs[g.r.IntN(len(xs))] }
+
+func runCamCase(c *corr.Ctx, srv *camServer, cs *CamCase, name string) {
+	r := srv.run(cs)
+	c.Dist("cam")
+	if r.step != "" {
+		c.Dist("cam-failed-step-" + r.step)
+	}
+	if r.step == "parse" || r.step == "start" {
+		c.CountOnly(name, false)
+		return
+	}
+	viol := func(clause, key, detail string) {
+		c.Violate(corr.Violation{Property: prop, Clause: clause, Key: key, Where: "camera", Input: map[string]any{"cam": cs}, Detail: detail})
+	}
+	target0 := ""
+	for _, q := range r.reqs {
+		if q.Target == "*" {
+			continue
+		}
+		if target0 == "" {
+			target0 = q.Target
+		}
+		if a, ok := authorityOf(q.Target); !ok || strings.Contains(a, "@") {
+			viol("credentials present in the URL never appear in a request line", "cam-credentials-on-wire", fmt.Sprintf("%s: request line %q", r.urlText, q.Line))
+		}
+	}
+	if target0 == "" {
+		target0 = requestTarget(r.u)
+	}
+	// model prediction of the request lines
+	var sb strings.Builder
+	sb.WriteString("url cam " + hx(r.urlText) + " ")
+	if cs.HasSessCtl {
+		sb.WriteString(hx(cs.SessCtl))
+	} else {
+		sb.WriteString("N")
+	}
+	if cs.HasCB && len(cs.CB) > 0 {
+		vals := cs.cbValues(target0)
+		fmt.Fprintf(&sb, " %d", len(vals))
+		for _, v := range vals {
+			sb.WriteString(" " + hx(v))
+		}
+	} else {
+		sb.WriteString(" N")
+	}
+	fmt.Fprintf(&sb, " %d", len(cs.Controls))
+	for _, ctl := range cs.Controls {
+		if ctl == noControl {
+			ctl = ""
+		}
+		sb.WriteString(" " + hx(ctl))
+	}
+	c.Add(corr.Case{Name: name, Ops: []string{sb.String()}, Impl: []string{traceText(r.reqs, nil, r.step)}, Nontrivial: true})
 }
 
 // Run is the entry point of the domain.
@@ -156,47 +317,88 @@ func Run(c *corr.Ctx) {
 		"oracle: handlers see the original path and query, each SETUP reaches its media, no user-info on request lines")
 	g := gen{c.Rng}
 
-	if c.Replay != nil {
-		var in struct {
-			E2E *E2ECase `json:"e2e"`
-		}
-		if err := json.Unmarshal(c.Replay, &in); err == nil && in.E2E != nil {
-			srv, err := startE2EServer()
-			if err != nil {
+	var srv *e2eServer
+	var cam *camServer
+	servers := func() {
+		if srv == nil {
+			var err error
+			if srv, err = startE2EServer(); err != nil {
 				panic(err)
 			}
-			defer srv.close()
-			r := srv.runE2E(in.E2E)
-			checkE2E(c, in.E2E, r)
-			return
+			if cam, err = startCamServer(); err != nil {
+				panic(err)
+			}
 		}
+	}
+	defer func() {
+		if srv != nil {
+			srv.close()
+			cam.close()
+		}
+	}()
+
+	replayOne := func(raw []byte, name string) bool {
+		var in struct {
+			E2E  *E2ECase  `json:"e2e"`
+			Cam  *CamCase  `json:"cam"`
+			Pure *URLParts `json:"pure"`
+			N    int       `json:"n"`
+			Text *string   `json:"text"`
+		}
+		if err := json.Unmarshal(raw, &in); err != nil {
+			return false
+		}
+		switch {
+		case in.E2E != nil:
+			servers()
+			runE2ECase(c, srv, in.E2E, name)
+		case in.Cam != nil:
+			servers()
+			runCamCase(c, cam, in.Cam, name)
+		case in.Pure != nil:
+			n := in.N
+			if n < 1 {
+				n = 2
+			}
+			checkPureRoundTrip(c, *in.Pure, n)
+			pureURLOps(c, g, name, in.Pure.String())
+		case in.Text != nil:
+			pureURLOps(c, g, name, *in.Text)
+		default:
+			return false
+		}
+		return true
+	}
+
+	if c.Replay != nil {
+		if !replayOne(c.Replay, "replay") {
+			c.Note("replay input not understood")
+		}
+		return
 	}
 
 	// corpus first
-	if files, _ := filepath.Glob(filepath.Join(corpusDir(), "*.json")); len(files) > 0 {
-		sort.Strings(files)
-		_ = files
-	}
-
-	srv, err := startE2EServer()
-	if err != nil {
-		panic(err)
-	}
-	defer srv.close()
-
-	n := c.N(300, 3000)
-	for i := 0; i < n; i++ {
-		host := g.pick([]string{"127.0.0.1:%d", "localhost:%d", "[::1]:%d", "cam.example.com:%d", "cam.example.com", "[2001:db8::7]:%d", "192.168.1.10"})
-		cs := g.e2eCase(host, srv.port)
-		cs.RealDial = !strings.HasPrefix(host, "cam") && !strings.HasPrefix(host, "[2001") && !strings.HasPrefix(host, "192.")
-		r := srv.runE2E(cs)
-		c.Dist("e2e-" + cs.Kind)
-		c.Dist("e2e-shape-" + shape(cs.resolved(0)))
-		if r.step != "" {
-			c.Dist("e2e-failed-step-" + r.step)
+	files, _ := filepath.Glob(filepath.Join(corpusDir(), "*.json"))
+	sort.Strings(files)
+	for _, f := range files {
+		if b, err := os.ReadFile(f); err == nil {
+			if replayOne(b, "corpus/"+filepath.Base(f)) {
+				c.Dist("corpus")
+			}
 		}
-		c.CountOnly(fmt.Sprintf("%v", cs), true)
-		checkE2E(c, cs, r)
+	}
+
+	runPure(c, g)
+
+	servers()
+	n := c.N(400, 6000)
+	for i := 0; i < n; i++ {
+		cs := g.e2eCase(i%10 != 9)
+		runE2ECase(c, srv, cs, fmt.Sprintf("e2e-%d", i))
+	}
+	n = c.N(200, 3000)
+	for i := 0; i < n; i++ {
+		runCamCase(c, cam, g.camCase(), fmt.Sprintf("cam-%d", i))
 	}
 }
 
